@@ -219,10 +219,18 @@ pub fn generate(sink: &mut Sink, seed: u64, thorough: bool) {
     let ncrash = if thorough { 150 } else { 25 };
     let cuts: [usize; 18] = [0, 1, 8, 16, 24, 25, 31, 32, 33, 39, 40, 47, 48, 49, 512, 1019, 1020, 1023];
     for _ in 0..ncrash {
-        let prog = {
+        let mut prog = {
             let mut g = Gen { rng: &mut rng, exts: vec![], n: 0 };
             g.program(6)
         };
+        // exactly one top-level finalize, at the end (after an earlier finalize the device
+        // legitimately holds a complete, smaller file)
+        let last = prog.stmts.len() - 1;
+        let mut i = 0;
+        prog.stmts.retain(|s| {
+            i += 1;
+            i - 1 == last || !matches!(s, Stmt::Fin | Stmt::FinX(_))
+        });
         let dev = SimDev::new(vec![]);
         dev.set_record(true);
         let run = execute(&prog, &dev);
@@ -288,7 +296,7 @@ pub fn generate(sink: &mut Sink, seed: u64, thorough: bool) {
             let mut g = Gen { rng: &mut rng, exts: vec![], n: 0 };
             g.program(6)
         };
-        prog.stmts.pop(); // the finalize
+        prog.stmts.retain(|s| !matches!(s, Stmt::Fin | Stmt::FinX(_))); // no finalize at all
         if !prog.stmts.is_empty() && rng.chance(1, 2) {
             let keep = 1 + rng.below(prog.stmts.len() as u64) as usize;
             prog.stmts.truncate(keep);
